@@ -245,6 +245,11 @@ class Interp(object):
       r, model = st.check([neg], what=name, want_model=True, timeout_ms=timeout_ms or self.obligation_timeout_ms)
       status = {"unsat": "proved", "sat": "refuted", "unknown": "unknown"}[r]
       if status == "unknown":
+        import os as _os
+        if _os.environ.get("PYVC_DEBUG"):
+          sys.stderr.write("UNKNOWN %s pc=%d\n" % (name, len(st.pc)))
+          from .backends import to_smt2
+          open("/tmp/pyvc_unknown_%s.smt2" % name.replace("/", "_")[:60], "w").write(to_smt2(st.pc + [neg]))
         status, model = self.second_opinion(st, neg, name)
     ob = Obligation(name, kind, status, model=model, time=_t.time() - t0)
     ob.pc_len = len(st.pc)
@@ -339,6 +344,25 @@ class Interp(object):
     if b1 and b2:
       return concretize(z3.If(g1, zbool(v1), zbool(v2)))
     if (not b1 and not b2 and is_intlike(v1) and is_intlike(v2)):
+      bx, by = st1.bits_of(v1), st2.bits_of(v2)
+      if bx is not None and by is not None and (is_sym(v1) or is_sym(v2)) and max(len(bx), len(by)) <= 64:
+        w = max(len(bx), len(by))
+        bx = list(bx) + [0] * (w - len(bx))
+        by = list(by) + [0] * (w - len(by))
+        bits = []
+        for p_, q_ in zip(bx, by):
+          if isinstance(p_, int) and isinstance(q_, int) and p_ == q_:
+            bits.append(p_)
+          elif is_sym(p_) and is_sym(q_) and p_.eq(q_):
+            bits.append(p_)
+          else:
+            bits.append(z3.If(g1, zint(p_), zint(q_)))
+        r = st1.compose_bits(bits)
+        if is_sym(r):
+          st2.register_bits(r, bits)
+        return r
+      if _ite_depth(v1) >= 4 or _ite_depth(v2) >= 4:
+        return _NOMERGE     # long chains of case splits are cheaper as separate paths
       return concretize(z3.If(g1, zint(v1), zint(v2)))
     if is_symreal(v1) or is_symreal(v2):
       if is_numlike(v1) and is_numlike(v2) and not b1 and not b2:
@@ -354,13 +378,19 @@ class Interp(object):
           y = sb.byte_at(b, i, st2)
           if isinstance(x, int) and isinstance(y, int) and x == y:
             chunks.append(("lit", bytes([x])))
+          elif is_sym(x) and is_sym(y) and x.eq(y):
+            chunks.append(("byte", x))
           else:
-            chunks.append(("byte", z3.If(g1, zint(x), zint(y))))
+            mb = self.merge_values(g1, x, y, st1, st2)
+            chunks.append(("byte", zint(mb)) if is_sym(mb) else ("lit", bytes([mb])))
         return SBytes(chunks, a.is_str)
     if isinstance(v1, tuple) and isinstance(v2, tuple) and len(v1) == len(v2):
       out = []
       for x, y in zip(v1, v2):
-        out.append(self.merge_values(g1, x, y, st1, st2))
+        mv = self.merge_values(g1, x, y, st1, st2)
+        if mv is _NOMERGE:
+          return _NOMERGE
+        out.append(mv)
       return tuple(out)
     # guarded union
     alts = []
@@ -497,14 +527,45 @@ class Interp(object):
     s.frames = new_frames
     s.ghost = new_ghost
     s.ranged = s1.ranged & s2.ranged
+    s.bitdecomp = dict(s1.bitdecomp)
+    s.bitdecomp.update(s2.bitdecomp)
+    s.unsigned_of = dict(s1.unsigned_of)
+    s.unsigned_of.update(s2.unsigned_of)
+    # decompositions whose defining facts are in the common prefix (made before the fork)
+    s.decomp = dict((k_, v_) for k_, v_ in s1.decomp.items() if k_ in s2.decomp and s2.decomp[k_][1] is v_[1])
+    s.norange = s1.norange & s2.norange
     s.trace = s1.trace
     self.merge_count += 1
     return (s, ex)
 
   def merge_all(self, items):
     """items: list of (state, extra).  Greedy pairwise merging; returns list of (state, extra)."""
-    if len(items) <= 1 or len(items) > self.merge_cap:
+    if len(items) <= 1:
       return items
+    if len(items) > self.merge_cap:
+      # many outcomes (e.g. a case split on a shift amount): merging them all gives huge nested
+      # formulas.  Only outcomes carrying the same constant (the many `return False` of an __eq__) are merged.
+      groups = {}
+      rest = []
+      for s, e in items:
+        if e is None or isinstance(e, (bool, int, str)):
+          groups.setdefault((type(e).__name__, e), []).append((s, e))
+        else:
+          rest.append((s, e))
+      out = list(rest)
+      for key, grp in groups.items():
+        if len(grp) == 1 or len(grp) > 40:
+          out.extend(grp)
+          continue
+        acc = [grp[0]]
+        for s, e in grp[1:]:
+          r = self.merge_states(acc[-1][0], s, acc[-1][1], e)
+          if r is not None:
+            acc[-1] = r
+          else:
+            acc.append((s, e))
+        out.extend(acc)
+      return out
     out = [items[0]]
     for s, e in items[1:]:
       merged = False
@@ -521,6 +582,27 @@ class Interp(object):
   # ------------------------------------------------------------------
   # union handling
   # ------------------------------------------------------------------
+  def narrow_union(self, v, truthy, st):
+    """drop the alternatives of a Union that cannot have the given truth value"""
+    if not isinstance(v, Union):
+      return v
+    keep = []
+    for g, a in v.alts:
+      definitely_false = a is None or a is False or (isinstance(a, (int, float)) and not isinstance(a, bool) and a == 0) \
+        or (isinstance(a, (bytes, str, tuple)) and len(a) == 0)
+      definitely_true = (a is True) or (isinstance(a, (int, float)) and not isinstance(a, bool) and a != 0) \
+        or (isinstance(a, (bytes, str, tuple)) and len(a) > 0)
+      if truthy and definitely_false:
+        continue
+      if (not truthy) and definitely_true:
+        continue
+      keep.append((g, a))
+    if not keep:
+      return v
+    if len(keep) == 1:
+      return keep[0][1]
+    return Union(keep)
+
   def split(self, v, st, k):
     """call k(st', plain) for each feasible alternative of a Union value"""
     if not isinstance(v, Union):
@@ -911,10 +993,22 @@ class Interp(object):
   # ------------------------------------------------------------------
   # expressions
   # ------------------------------------------------------------------
+  _JOIN_NODES = (ast.Compare, ast.Call, ast.Attribute, ast.Subscript, ast.BinOp, ast.BoolOp, ast.UnaryOp)
+
   def ev(self, node, st, ctx, k):
     m = getattr(self, "ev_" + type(node).__name__, None)
     if m is None:
       raise Unsupported("expression %s at %s" % (type(node).__name__, self.where(ctx, node)))
+    if isinstance(node, self._JOIN_NODES):
+      # expression-level join: sub-evaluations that fork (unions, interpreted __eq__ ...) are merged
+      # again when their results are mergeable values
+      res = []
+      m(node, st, ctx, lambda s, v: res.append((s, v)))
+      if len(res) == 1:
+        return k(res[0][0], res[0][1])
+      for s, v in self.merge_all(res):
+        k(s, v)
+      return
     return m(node, st, ctx, k)
 
   def ev_list(self, nodes, st, ctx, k):
@@ -1065,8 +1159,9 @@ class Interp(object):
           st4.add(stop_cond)
           s2.add(z3.Not(stop_cond))
           res = []
-          # short-circuit outcome: value is v itself
-          res.append((st4, v))
+          # short-circuit outcome: value is v itself (a union is narrowed to the alternatives
+          # compatible with the truth value that made us stop)
+          res.append((st4, self.narrow_union(v, not is_and, st4)))
           step_collect(j + 1, s2, res)
           for s, v2 in self.merge_all(res):
             k(s, v2)
@@ -1561,6 +1656,20 @@ class _NoMerge(object):
 _ABSENT = _Absent()
 _NOMERGE = _NoMerge()
 _MISSING = object()
+
+
+def _ite_depth(t):
+  d = 0
+  while is_sym(t) and z3.is_app_of(t, z3.Z3_OP_ITE):
+    d += 1
+    a, b = t.arg(1), t.arg(2)
+    if z3.is_app_of(b, z3.Z3_OP_ITE):
+      t = b
+    elif z3.is_app_of(a, z3.Z3_OP_ITE):
+      t = a
+    else:
+      break
+  return d
 
 
 def concretize_b(x):
